@@ -220,6 +220,54 @@ def main(rep, tier, only):
             rep.ok("INH-1", "find_or_create_child", F.primary_site(fn), F.fn_name(fn), how="level-of-push-target")
         else:
             rep.fail("INH-1", "find_or_create_child", F.primary_site(fn), F.fn_name(fn), why=why)
+    # FIND: a child is found by EQUALITY of its name with the component looked up (a prefix / substring match makes sibling
+    # locations share a node): every use of the name parameter in find_child_tpl is an operand of ==, the other operand being the
+    # candidate's own name -- whatever the search is written as (find_if_opt with a lambda, a hand-written loop)
+    for fn in db.fns("fcppt::log::impl::find_child_tpl")[:1]:
+        u = fn["_unit"]
+        nid = fn["params"][1]["id"]
+        why = None
+        uses = 0
+
+        def strip_get(t):
+            while isinstance(t, tuple) and t and t[0] == "c" and str(t[1]).endswith("::get") and not t[3]:
+                t = t[2]
+            return t
+        parents = {}
+        for n_ in F.walk(fn.get("body"), into_lambdas=True):
+            for key_ in F.CHILD_KEYS:
+                v_ = n_.get(key_)
+                for c_ in (v_ if isinstance(v_, list) else [v_]):
+                    if isinstance(c_, dict):
+                        parents[id(c_)] = n_
+        for n_ in F.walk(fn.get("body"), into_lambdas=True):
+            if n_.get("k") == "ref" and n_.get("id") == nid:
+                if parents.get(id(n_)) is None:
+                    continue        # the initialiser of a lambda capture: no use by itself
+                uses += 1
+                up = n_
+                cmpn = None
+                for _ in range(6):
+                    up = parents.get(id(up))
+                    if up is None:
+                        break
+                    if (up.get("k") == "call" and up.get("opcall") in ("==", "!=")) or (up.get("k") == "binop" and up.get("op") in ("==", "!=")):
+                        cmpn = up
+                        break
+                    if up.get("k") == "call" and not (T.callee_qn(u, up) or "").endswith("::get") and up.get("opcall") is None:
+                        break
+                if cmpn is None:
+                    why = "the looked-up name is used in `%s`, which is not an equality comparison with the candidate's name" % T.show(T.norm(u, parents.get(id(n_)) or n_))[:120]
+                    break
+                ops_ = ([cmpn["recv"]] if cmpn.get("recv") is not None else []) + list(cmpn.get("args", [])) if cmpn.get("k") == "call" else [cmpn.get("l"), cmpn.get("r")]
+                sides = [T.show(strip_get(T.norm(u, o_))) for o_ in ops_]
+                other = [x for x in sides if x != fn["params"][1]["name"]]
+                if len(sides) != 2 or len(other) != 1 or not re.search(r"\.value\(\)\.name\(\)$", other[0]):
+                    why = "the looked-up name is compared with `%s`, expected the candidate child's value().name()" % other
+                    break
+        if not why and uses == 0:
+            why = "the name parameter is not used"
+        (rep.fail if why else rep.ok)("INH-1", "find_child_tpl|name equality", F.primary_site(fn), F.fn_name(fn), **({"why": why} if why else {"how": "child.value().name() == name"}))
     # SET-1 -- decided on the paths of set() over a twice-unrolled traversal, however the iteration is written (range-for,
     # explicit iterator loop): the range is make_pre_order(find_location_impl(...)), and node k of it gets level(_level), once
     for fn in L.method_fns(db, CTX, "set"):
